@@ -4,8 +4,11 @@ from vplib import Run
 RT = ["vp_rt.c", "vp_ghost.c"]
 DS_SRCS = ["ds_main.c", "ds_wsd.c", "ds_mpmc.c", "ds_mpsc.c", "ds_ring.c", "ds_wq.c", "ds_cas2.c", "ds_hazard.c", "ds_selftest.c"] + RT
 
+FB = ["fb_common.c"] + RT
 BINARIES = {
     "h_ds": ("h_ds", DS_SRCS),
+    "h_sync": ("h_sync", ["sy_main.c", "sy_mutex.c", "sy_cond.c", "sy_sem.c", "sy_rwlock.c", "sy_barrier.c", "sy_spin.c"] + FB),
+    "h_yield": ("h_yield", ["h_yield.c"] + FB),
 }
 
 ASSUME_COMMON = [
@@ -80,6 +83,10 @@ def ds_plan(tier, seed, subs, stall_points, thread_sets, rounds_q=60, rounds_t=6
         for thr in ([thread_sets[0][-1]] if q else thread_sets[1][-2:]):
             k += 1
             runs.append(ds("asan", sub, seed, k, thr, mode="jitter", rounds=max(10, rounds // 3), ops=ops, **(extra or {})))
+            for sp in stall_points:
+                k += 1
+                runs.append(ds("asan", sub, seed, k, thr, mode="stall", stall_point=sp, stall_us_lo=30, stall_us_hi=600,
+                               stall_every=7, rounds=max(10, rounds // 4), ops=ops, **(extra or {})))
             k += 1
             runs.append(ds("dbg", sub, seed, k, thr, mode="jitter", rounds=max(10, rounds // 3), ops=ops, **(extra or {})))
     return runs
@@ -91,7 +98,7 @@ HIST_RULE = ("a case = one stamped history (round) of a fresh structure: seeded 
 
 
 def c13(tier, seed):
-    return dict(runs=ds_plan(tier, seed, ["mpmc"], ["MPMC_POP_PRE_CAS", "MPMC_PUSH_MID", "HP_SCAN_SNAPSHOT"], ([2, 4, 8], [2, 3, 4, 8, 16])),
+    return dict(runs=ds_plan(tier, seed, ["mpmc"], ["MPMC_POP_PRE_CAS", "MPMC_PUSH_MID", "HP_SCAN_SNAPSHOT", "HP_PUBLISH_PRE", "HP_RELEASED"], ([2, 4, 8], [2, 3, 4, 8, 16])),
                 rule=HIST_RULE + "Oracles: no phantom, exactly-once, no loss, real-time FIFO (definite pattern), EMPTY only if no value was inside "
                 "for the whole call or a push overlapped; nodes reclaimed by the hazard GC are freed (ASan) or poisoned and recycled at once.",
                 min_events={"mpmc_nodes_reclaimed_by_hazard_gc": 100, "mpmc_pop_empty": 1, "histories_with_overlap": 10},
@@ -99,9 +106,9 @@ def c13(tier, seed):
 
 
 def c14(tier, seed):
-    runs = ds_plan(tier, seed, ["hazard"], ["HP_SCAN_SNAPSHOT", "H100"], ([2, 4, 8], [2, 3, 4, 8, 16]), ops=4000)
+    runs = ds_plan(tier, seed, ["hazard"], ["HP_SCAN_SNAPSHOT", "H100", "HP_PUBLISH_PRE", "HP_RELEASED"], ([2, 4, 8], [2, 3, 4, 8, 16]), ops=4000)
     # the MPMC FIFO is the structure built on it: "no structure built on it dereferences a reclaimed node"
-    runs += ds_plan(tier, seed + 17, ["mpmc"], ["HP_SCAN_SNAPSHOT"], ([8], [4, 16]), rounds_q=30, rounds_t=300)
+    runs += ds_plan(tier, seed + 17, ["mpmc"], ["HP_SCAN_SNAPSHOT", "HP_PUBLISH_PRE", "HP_RELEASED"], ([8], [4, 16]), rounds_q=30, rounds_t=300)
     return dict(runs=runs,
                 rule="a case = one round: seeded split into writers (unlink from 8 shared slots + hazard_pointer_free) and readers (publish, "
                 "re-validate, hold 1..K validated protections, release), K fixed per process (1..4), late-joining records, shuffled node "
@@ -138,7 +145,137 @@ def c17(tier, seed):
                 assumptions=ASSUME_COMMON)
 
 
+
+def fb(binary, variant, sub, seed, k, threads, mode="jitter", timeout=400, **kw):
+    args = dict(sub=sub, seed=S(seed, k), threads=threads, mode=mode)
+    args.update(kw)
+    return Run(variant, BINARIES[binary], args, cpu=min(threads, 8), timeout=timeout, tag=sub)
+
+
+RT_STALLS = ["WAIT_MPSC_PRE_PUSH", "MPSC_MID", "SWITCH_PRE", "SWITCH_POST", "SCHEDULED", "MAINT_PUBLISH"]
+
+
+def fb_plan(tier, seed, binary, sub, stalls, trials_q, trials_t, threads_q=(1, 2, 4, 16), threads_t=(1, 2, 3, 4, 8, 16), extra=None,
+            stall_every=5, tsan=False, pinned=True):
+    """generic plan for a fiber-runtime scenario family"""
+    q = tier == "quick"
+    extra = extra or {}
+    runs = []
+    k = 0
+    trials = trials_q if q else trials_t
+    for thr in (threads_q if q else threads_t):
+        for mode in ("monitor", "jitter", "skew"):
+            k += 1
+            runs.append(fb(binary, "mon", sub, seed, k, thr, mode=mode, trials=trials, **extra))
+    for i, sp in enumerate(stalls):
+        for thr in ((threads_q[1 + i % (len(threads_q) - 1)],) if q else threads_t[1:]):
+            k += 1
+            runs.append(fb(binary, "mon", sub, seed, k, thr, mode="stall", stall_point=sp, stall_every=stall_every, stall_us_lo=50,
+                           stall_us_hi=1500, trials=max(3, trials // 3), **extra))
+    for thr in ((4,) if q else (2, 8, 16)):
+        k += 1
+        runs.append(fb(binary, "asan", sub, seed, k, thr, mode="jitter", trials=max(3, trials // 3), **extra))
+        k += 1
+        runs.append(fb(binary, "dbg", sub, seed, k, thr, mode="jitter", trials=max(3, trials // 3), **extra))
+    if tsan:
+        for thr in ((4,) if q else (2, 4, 8)):
+            k += 1
+            runs.append(fb(binary, "tsan", sub, seed, k, thr, mode="monitor", trials=max(2, trials // 6), timeout=900, **extra))
+    if pinned and not q:
+        for thr in (4, 16):
+            k += 1
+            runs.append(fb(binary, "pinned", sub, seed, k, thr, mode="jitter", trials=trials, **extra))
+    return runs
+
+
+TRIAL_RULE = ("a case = one trial: a fresh primitive and a seeded population of fibers (counts, operation mix, yields/sleeps) run to completion on "
+              "1..16 kernel threads under one perturbation mode (monitor, jitter, priority skew, or a targeted stall at one window point); the ghost "
+              "monitor (running-on map, pending wake-ups, quiescence) watches every context switch of the trial. ")
+
+
+def c03(tier, seed):
+    return dict(runs=fb_plan(tier, seed, "h_sync", "mutex", RT_STALLS, 24, 150, tsan=True),
+                rule=TRIAL_RULE + "Oracles: occupancy counter (atomic) must be 0 on entry, plain payload pair pa==pb and section count (TSan judges payload "
+                "races), trylock never context-switches, mutex counter back to 1, stranded locker at logical quiescence. distinct_nontrivial = distinct "
+                "acquisition-order hashes among trials with at least one contended hand-off.",
+                min_events={"mutex_contended_acquisitions": 50, "lib_wake_mpsc_spin_count": 1, "mutex_trylock_fail": 1, "saving_skips": 1},
+                assumptions=ASSUME_COMMON)
+
+
+def c05(tier, seed):
+    return dict(runs=fb_plan(tier, seed, "h_sync", "cond", RT_STALLS, 30, 200),
+                rule=TRIAL_RULE + "Credit ledger under the user mutex: signal while a waiter is registered gives one credit, broadcast one per registered "
+                "waiter; every return from fiber_cond_wait must own the mutex and consume a credit; at the end credits==0 and nobody is blocked "
+                "(quiescence => lost signal). No predicate loops. distinct_nontrivial = distinct (waiters, signallers, waits, mode, window-hit) tuples.",
+                min_events={"cond_signals_with_waiter": 50, "cond_broadcasts_with_waiters": 10, "lib_wake_mpsc_spin_count": 1},
+                assumptions=ASSUME_COMMON)
+
+
+def c06(tier, seed):
+    return dict(runs=fb_plan(tier, seed, "h_sync", "sem", ["MAINT_PUBLISH", "MPMC_PUSH_MID", "WAIT_MPMC", "SWITCH_PRE", "SWITCH_POST", "SCHEDULED"], 24, 150),
+                rule=TRIAL_RULE + "Initial values {0,1,2,7}; holder pattern (occupancy <= initial) or producer/consumer. Oracles: successes <= initial + posts "
+                "begun at every success, trywait never context-switches, final value == initial + posts - successes, stranded waiter at quiescence.",
+                min_events={"sem_wait_returned": 100, "sem_trywait_fail": 1, "sem_posts": 100},
+                assumptions=ASSUME_COMMON)
+
+
+def c07(tier, seed):
+    return dict(runs=fb_plan(tier, seed, "h_sync", "rwlock", RT_STALLS, 24, 150),
+                rule=TRIAL_RULE + "Oracles: writer alone (atomic occupancy of readers/writers on entry and exit), shared data unchanged during a read "
+                "section, try variants never context-switch, state word 0 at the end, stranded waiter at quiescence.",
+                min_events={"rw_read_sections_shared_with_other_readers": 10, "rw_write_sections": 50, "rw_trywr_fail": 1, "lib_wake_mpsc_spin_count": 1},
+                assumptions=ASSUME_COMMON)
+
+
+def c12(tier, seed):
+    return dict(runs=fb_plan(tier, seed, "h_sync", "barrier", ["WAIT_MPSC_PRE_PUSH", "MPSC_MID", "SWITCH_PRE", "SCHEDULED"], 14, 80),
+                rule=TRIAL_RULE + "Counts {1,2,3,4,7,16,64}, up to 300 back-to-back rounds by the same fibers. Oracles: on return from wait #k exactly "
+                "'count' fibers have entered round k, one serial fiber per round, everybody returns (quiescence).",
+                min_events={"barrier_rounds": 500},
+                assumptions=ASSUME_COMMON)
+
+
+def c18(tier, seed):
+    return dict(runs=fb_plan(tier, seed, "h_sync", "spin", ["SPIN_TICKET", "CPU_RELAX"], 12, 80, threads_q=(2, 4, 16), threads_t=(2, 3, 4, 8, 16),
+                             extra=dict(livelock_prop="C18"), stall_every=50, tsan=True),
+                rule=TRIAL_RULE + "Spinlock used from fibers that never yield while holding it; counters preset just below 2^32. Oracles: occupancy, "
+                "now-serving values seen by holders are consecutive (mod 2^32) and equal the ticket taken, trylock neither spins nor switches, plain "
+                "payload (TSan), ticket==users at the end.",
+                min_events={"spin_lock_calls_that_spun": 100, "spin_trylock_fail": 1, "spin_ticket_wraparounds": 1},
+                assumptions=ASSUME_COMMON + ["nobody yields while holding a spinlock (documented contract)"])
+
+
+def c10(tier, seed):
+    q = tier == "quick"
+    runs = []
+    k = 0
+    for thr in ((1, 1, 2, 4, 16) if q else (1, 1, 1, 2, 3, 4, 8, 16)):
+        for mode in ("monitor", "jitter"):
+            k += 1
+            runs.append(fb("h_yield", "mon", "yield", seed, k, thr, mode=mode, trials=8 if q else 40, livelock_prop="C10",
+                           **({"long": 4000} if mode == "jitter" else {})))
+    for thr in ((1, 4) if q else (1, 2, 16)):
+        k += 1
+        runs.append(fb("h_yield", "asan", "yield", seed, k, thr, mode="monitor", trials=6, livelock_prop="C10"))
+        k += 1
+        runs.append(fb("h_yield", "dbg", "yield", seed, k, thr, mode="monitor", trials=6, livelock_prop="C10"))
+    return dict(runs=runs,
+                rule="a case = one trial: seeded mix of forever-yielding fibers, victims that must run L times (L alternates 500 / 20000), yield-polling "
+                "loops waiting for flags set by later-created fibers, blockers (mutex, sleep) and creators, on 1 kernel thread (no stealing to mask "
+                "starvation) and on N. Oracle (online, ghost): number of switches a thread makes to other fibers while fiber X sits in its run queues "
+                "<= 2 x (most fibers alive) + 2 (+64 with stealing); maximum compared between short and long loops; every polling loop terminates.",
+                min_events={"yield_victim_runs": 1000, "yield_polling_loops_terminated": 1, "yield_fibers_created_midrun": 1},
+                assumptions=ASSUME_COMMON)
+
+
 CHECKS = {
+    "C03": c03,
+    "C05": c05,
+    "C06": c06,
+    "C07": c07,
+    "C10": c10,
+    "C12": c12,
+    "C18": c18,
     "C02": c02,
     "C13": c13,
     "C14": c14,
